@@ -61,7 +61,8 @@ theorem C10_iso (s : G) (w : Uid) (roots sel : List Uid) (ha : CloneArgs s w roo
     (hind : rootsIndependentB s roots = true) :
     cloneHierarchyB s (cloneSel s w roots).1 (s.n + sel.length) sel roots = true ∧
     cloneLinksB s (cloneSel s w roots).1 w sel = true := by
-  sorry
+  obtain ⟨subs, hsubs, rfl⟩ := Option.map_eq_some_iff.mp h
+  exact cloneSel_iso s w roots subs ha.inv ha.wbs ha.member hsubs hind
 
 /-- non-vacuity and a concrete check: a 5-task WBS with a link inside, a link to a task of another WBS and a link to
     a non-selected member; `subtree` of one branch -/
